@@ -83,8 +83,9 @@ type server struct {
 	maxTerm                 uint64      // largest term ever reported through hooks / start
 	pendTerm                []pendTermW // setCurrentTerm calls whose durable write has not been seen yet (this incarnation)
 	pendTermEp              int
-	termRaced               bool // two setCurrentTerm calls of one incarnation overlapped (main loop and heartbeat fast path)
-	repEpoch                int  // externally reported terms (responses, CurrentTerm()): see reportedTerm
+	leaderRacedTerm         uint64 // a leader was recorded while the write of this (newer) term was in flight
+	termRaced               bool   // two setCurrentTerm calls of one incarnation overlapped (main loop and heartbeat fast path)
+	repEpoch                int    // externally reported terms (responses, CurrentTerm()): see reportedTerm
 	repMaxCur, repMaxPrev   uint64
 	repMaxCurWhat           string
 	repMaxPrevWhat          string
@@ -382,7 +383,24 @@ func (c *checker) nemesis(e *sim.Ev) {
 	c.ext.nemesis(c, e)
 }
 
-func (c *checker) observer(e *sim.Ev) {}
+// observer: a LeaderObservation (raft's setLeader) is logged on the goroutine that made the change.
+// When a server records a leader while one of its own setCurrentTerm calls is still waiting for the
+// stable store, the record was made under the old term by the other goroutine (the transport's heartbeat
+// fast path) and survives into the new term: the race behind known findings S14 / S22.
+func (c *checker) observer(e *sim.Ev) {
+	if e.K != "o.leader" || e.X == "" {
+		return
+	}
+	s := c.server(e.S)
+	if s.pendTermEp == e.Ep {
+		for _, p := range s.pendTerm {
+			if p.v > e.B && p.v > s.leaderRacedTerm {
+				s.leaderRacedTerm = p.v
+				c.cov("leader-recorded-during-term-write")
+			}
+		}
+	}
+}
 
 // ---------- finish ----------
 
